@@ -337,6 +337,12 @@ def _apply(c, op, dom, impl, kind):
         _pre()
         new = type(c)(arg)
         return listing(new, mapping)
+    if name == "seqidx":
+        # index (or slice) a lazy sequence made for the purpose
+        seq = getattr(c, op[1])()
+        if isinstance(op[2], list):
+            return list(seq[op[2][0]:op[2][1]])
+        return seq[op[2]]
     if name == "fsrt":
         # fs family, Bucket: toBytes() of the container loaded into a NEW
         # bucket with fromBytes(), which then takes more entries; the result
@@ -561,6 +567,17 @@ class Model(object):
                     dd[k] = v
                 return [(dom.key(k), dom.val(dd[k])) for k in sorted(dd)]
             return [dom.key(k) for k in sorted(set(op[1]))]
+        if name == "seqidx":
+            lst = self.listing()
+            if self.mapping and op[1] == "keys":
+                lst = [k for k, _ in lst]
+            elif self.mapping and op[1] == "values":
+                lst = [v for _, v in lst]
+            if isinstance(op[2], list):
+                return lst[op[2][0]:op[2][1]]
+            if not -len(lst) <= op[2] < len(lst):
+                raise _ModelExc("IndexError")
+            return lst[op[2]]
         if name == "fsrt":
             dd = dict(d)
             for k, v in op[1]:
